@@ -2,7 +2,7 @@
 From Coq Require Import String ZArith List Bool.
 From XV Require Import Base.Scalar Base.Sum Base.Mat Model.Eof Model.Rot Model.FlagState Gen.T5flag Proofs.C01_proofs Proofs.C11_proofs
   Proofs.FlagState_proofs Proofs.RotState_proofs Proofs.Flag_tie
-  Model.FitChain Proofs.FitChain_proofs Gen.T7chain Gen.T7pipe Proofs.Chain_tie.
+  Model.FitChain Proofs.FitChain_proofs Gen.T7chain Gen.T7pipe Proofs.Chain_tie Gen.T5cpcca.
 Import ListNotations.
 
 (* EOF-type models: X V_k = U_k diag(s_k), with the model's own sign convention *)
@@ -99,3 +99,13 @@ Theorem C04_chain_other_fit_transform_refuted :
   snd (fit_run Z Z (zstages false) [0; 1] 5%Z) = 10%Z /\ transform_run Z Z (zstages false) [0; 1] st 5%Z = 20%Z.
 Proof. exact other_fit_transform_refuted. Qed.
 Print Assumptions C04_chain_other_fit_transform_refuted.
+
+(* which stored array and which norm each field of a cross-set model uses in transform, inverse_transform and the accessors
+   (statement-level match of CPCCA._transform_algorithm, _inverse_transform_algorithm, _get_components, _get_scores) *)
+Theorem C04_cross_field_tables_in_source :
+  (cpcca_transform_table = [("X", "components1", "norm1"); ("Y", "components2", "norm2")] /\
+   cpcca_inverse_table = [("X", "components1"); ("Y", "components2")] /\
+   cpcca_accessor_table = [("components1", "components1", "norm1", "mul-if-not-normalized"); ("components2", "components2", "norm2", "mul-if-not-normalized");
+                           ("scores1", "scores1", "norm1", "div-if-normalized"); ("scores2", "scores2", "norm2", "div-if-normalized")])%string.
+Proof. exact cpcca_field_tables. Qed.
+Print Assumptions C04_cross_field_tables_in_source.
